@@ -416,5 +416,56 @@ pub mod ds {
             assert(skip(k, 8) =~= skip(c, 8).take(v));
         }
     }
+
+    // --- C08: a build record decodes to what was encoded (per record; "a surviving record is never attributed ... with
+    //     other content than was written")
+    pub proof fn lemma_enc_ids_at(ids: Seq<Id>, j: int)
+        requires 0 <= j < ids.len()
+        ensures enc_ids(ids).len() == 3 * ids.len(), enc_ids(ids).subrange(3 * j, 3 * j + 3) == enc_u24(ids[j].0)
+        decreases ids.len()
+    {
+        lemma_enc_ids_len(ids);
+        lemma_enc_ids_len(ids.drop_last());
+        if j < ids.len() - 1 {
+            lemma_enc_ids_at(ids.drop_last(), j);
+            assert(enc_ids(ids).subrange(3 * j, 3 * j + 3) =~= enc_ids(ids.drop_last()).subrange(3 * j, 3 * j + 3));
+            assert(ids.drop_last()[j] == ids[j]);
+        } else {
+            assert(enc_ids(ids).subrange(3 * j, 3 * j + 3) =~= enc_u24(ids.last().0));
+        }
+    }
+    /// the body of a build record (everything after the leading u16) followed by anything
+    pub open spec fn build_body(outs: Seq<Id>, deps: Seq<Id>, hash: u64, rest: Seq<u8>) -> Seq<u8> {
+        enc_ids(outs) + enc_u16(deps.len() as u16) + enc_ids(deps) + enc_u64(hash) + rest
+    }
+    pub proof fn lemma_build_roundtrip(outs: Seq<Id>, deps: Seq<Id>, hash: u64, rest: Seq<u8>)
+        requires deps.len() <= 0xffff, forall|j: int| 0 <= j < outs.len() ==> (#[trigger] outs[j]).0 < 0x100_0000, forall|j: int| 0 <= j < deps.len() ==> (#[trigger] deps[j]).0 < 0x100_0000
+        ensures ({ let s = build_body(outs, deps, hash, rest); let no = outs.len() as int; let nd = deps.len() as int;
+            &&& forall|j: int| 0 <= j < no ==> #[trigger] id_at(s, j) == outs[j].0
+            &&& dec_u16(s.subrange(3 * no, 3 * no + 2)) as int == nd
+            &&& forall|j: int| 0 <= j < nd ==> #[trigger] id_at(skip(s, 3 * no + 2), j) == deps[j].0
+            &&& dec_u64(s.subrange(3 * no + 2 + 3 * nd, 3 * no + 2 + 3 * nd + 8)) == hash
+            &&& skip(s, 3 * no + 2 + 3 * nd + 8) == rest })
+    {
+        let s = build_body(outs, deps, hash, rest);
+        let no = outs.len() as int; let nd = deps.len() as int;
+        lemma_enc_ids_len(outs); lemma_enc_ids_len(deps);
+        assert forall|j: int| 0 <= j < no implies #[trigger] id_at(s, j) == outs[j].0 by {
+            lemma_enc_ids_at(outs, j);
+            assert(s.subrange(3 * j, 3 * j + 3) =~= enc_ids(outs).subrange(3 * j, 3 * j + 3));
+            lemma_u24_roundtrip(outs[j].0);
+        }
+        assert(s.subrange(3 * no, 3 * no + 2) =~= enc_u16(nd as u16));
+        lemma_u16_roundtrip(nd as u16);
+        let s1 = skip(s, 3 * no + 2);
+        assert forall|j: int| 0 <= j < nd implies #[trigger] id_at(s1, j) == deps[j].0 by {
+            lemma_enc_ids_at(deps, j);
+            assert(s1.subrange(3 * j, 3 * j + 3) =~= enc_ids(deps).subrange(3 * j, 3 * j + 3));
+            lemma_u24_roundtrip(deps[j].0);
+        }
+        assert(s.subrange(3 * no + 2 + 3 * nd, 3 * no + 2 + 3 * nd + 8) =~= enc_u64(hash));
+        lemma_u64_roundtrip(hash);
+        assert(skip(s, 3 * no + 2 + 3 * nd + 8) =~= rest);
+    }
     }
 }
